@@ -218,6 +218,29 @@ for _p in ("C03", "C04"):
     PROPS[_p]["engines"] = ["traversal", "metric"]
     PROPS[_p]["rule"] = TRAV_RULE + " ; metric engine: int160 / closer-than / sorted-set / K-nearest lines against the model (see C18)"
 PROPS["C02"]["rule"] = TRAV_RULE + " ; metric engine: K-nearest push sequences with equal-id / equal-address / equal-distance ties (see C18)"
+# lookups engine, fifth case family (harness/cmd/h/lookups_closest.go): the Server-backed lookups' glue between Server.Query results and the
+# traversal (QueryResult.TraversalQueryResult, Server.GetPeers, the DoQuery closures of announce.go / bootstrap.go / exts/getput); a C02 / C03 /
+# C04 run executes only these cases of the engine (VERIF_PROP; same case numbers as in the other properties' runs)
+_CLOSEST_RULE = (" ; lookups engine, result-set cases (lookups_closest.go): real Server.Announce / AnnounceTraversal / Bootstrap / getput.Get / Put and "
+                 "traversal.Start wired like Bootstrap (K 1..32, Alpha 1..8) on a fake conn against scripted networks: tokens of every form among the K "
+                 "closest responders (empty, one byte, NUL, 200 bytes, binary, digits, none); honest networks of 5-48 nodes answering with the true L = 4..40 "
+                 "closest nodes closest first (nodes / nodes6), seeded with the farthest nodes (line lkexact against RunLookupsClosest.rlc_exact = the K "
+                 "closest of the network, Props/C02.v C02_lookups_exact_*; line lkclosest: Operation.Closest() against the model's result set); networks "
+                 "whose closest nodes are reachable only through responders without token / id (plain, chains, mixed; get mutable / immutable, put, announce, "
+                 "bootstrap); lookups ending with queries in flight to slow nodes (Get ending on an immutable value at depth 0..2, StopTraversing / Close, "
+                 "cancelled ctx of Get / Put; caller context alive); a responder listing one address under six ids, itself, and addresses the node filter "
+                 "rejects; every case is an ordinary lkbegin .. lkend case (issues, replies, announce_peer / put destinations and tokens, Peers, result "
+                 "replayed by the model); oracles C02 responder-closer-than-member-left-out:* / result-larger-than-k:* / member-never-answered:* / "
+                 "k-closest-of-honest-network-not-in-result:*, C03 learned-contact-never-queried:*, C04 query-in-flight-survives-end-of-lookup:* / "
+                 "address-queried-twice:* / query-to-address-rejected-by-node-filter:*")
+_CLOSEST_TRUSTED = ["lookups engine: the scripted network is the only source of replies; a contact counts as learned when a reply naming it was handed to "
+                    "the serve loop for a query of the running lookup; the result set of Announce / Put is read off the announce_peer / put datagrams, "
+                    "Bootstrap's (not exposed) is taken to be the K closest of the nodes that answered; 'cancelled' is observed as Stats().OutstandingTransactions "
+                    "back to 0 within 3 s while the queries' resend timers are one hour"]
+for _p in ("C02", "C03", "C04"):
+    PROPS[_p]["engines"] = PROPS[_p]["engines"] + ["lookups"]
+    PROPS[_p]["rule"] += _CLOSEST_RULE
+    PROPS[_p]["trusted"] = PROPS[_p]["trusted"] + _CLOSEST_TRUSTED
 
 # engine `api` (srv_api*.go, RunApi.v / ApiProofs.v): the exported API used from several goroutines at once
 API_TRUSTED = ["api engine: Go scheduler / sync.RWMutex; overlap is provoked (callers queued behind a packet handler parked in the OnQuery "
